@@ -61,7 +61,11 @@ fn run_probe(file_mode: bool, entries: &[(String, String)], dir: &str, n: u64) -
     } else {
         cmd.arg("ENV");
         for (k, v) in entries {
-            let name = KEYS.iter().find(|(f, _)| f == k).map(|(_, e)| e.to_string()).unwrap_or(format!("ROUGHENOUGH_{}", k.to_uppercase()));
+            // a key that is not a documented setting has no environment counterpart
+            let name = match KEYS.iter().find(|(f, _)| f == k) {
+                Some((_, e)) => e.to_string(),
+                None => continue,
+            };
             // YAML quoting is not part of the environment syntax
             let raw = v.trim_matches('"').to_string();
             cmd.env(name, raw);
